@@ -69,8 +69,13 @@ func (f *ChangeClass) Call(s *slip.Scope, args slip.List, depth int) slip.Object
 	case *StandardObject:
 		ti.Type = class.(isStandardClass)
 		ti.vars = map[string]slip.Object{}
-		sdm := ti.Type.slotDefMap()
-		for name, sd := range sdm {
+		// All the slots of the new class, the inherited ones included.
+		forms := ti.Type.initFormMap()
+		for _, sd := range ti.Type.allSlotsDefs() {
+			if sd.classStore {
+				continue
+			}
+			name := sd.name
 			sym := slip.Symbol(name)
 			if v, has := dup.SlotValue(sym); has {
 				ti.vars[name] = v
@@ -84,7 +89,14 @@ func (f *ChangeClass) Call(s *slip.Scope, args slip.List, depth int) slip.Object
 					}
 				}
 				if !inited {
-					ti.vars[name] = sd.initform
+					ti.vars[name] = slip.Unbound
+					if fsd := forms[name]; fsd != nil {
+						if fsd.initform == nil { // (:initform nil)
+							ti.vars[name] = nil
+						} else {
+							ti.vars[name] = fsd.initform.Eval(s, depth+1)
+						}
+					}
 				}
 			}
 		}
